@@ -131,9 +131,10 @@ def _parse_color_arg(colors, ids, id_kind="edges"):
     if isinstance(colors, IDStat):
         colors = colors.asdict()
     if isinstance(colors, dict):
-        if ids is not None:  # filter if needed
-            colors = {key: val for key, val in colors.items() if key in ids}
-        values = list(colors.values())
+        if ids is not None:  # look the values up by ID, in the order of the plotted elements
+            values = [colors[i] for i in ids if i in colors]
+        else:
+            values = list(colors.values())
         colors = np.array(values)
 
     # see if input format needs to be mapped to colors (if numeric)
@@ -155,7 +156,7 @@ def _parse_color_arg(colors, ids, id_kind="edges"):
     return colors, colors_to_map
 
 
-def _draw_arg_to_arr(arg):
+def _draw_arg_to_arr(arg, ids=None):
     """Convert drawing arguments to a matplotlib-compliant format.
 
     IDStat, dict, and list are converted to ndarray.
@@ -165,6 +166,10 @@ def _draw_arg_to_arr(arg):
     ----------
     arg: int, float, dict, iterable, or NodeStat/EdgeStat
         Attributes for drawing parameter. Scalars are ignored.
+    ids : iterable, optional
+        The IDs of the elements being plotted, in plotting order. If given and
+        `arg` is a dict, its values are looked up by ID in that order (rather
+        than taken in the dict's own order). By default, None.
 
     Returns
     -------
@@ -174,7 +179,10 @@ def _draw_arg_to_arr(arg):
     if isinstance(arg, IDStat):
         arg = arg.asnumpy()
     elif isinstance(arg, dict):
-        values = list(arg.values())
+        if ids is not None:
+            values = [arg[i] for i in ids if i in arg]
+        else:
+            values = list(arg.values())
         arg = np.array(values)
     elif isinstance(arg, list):
         arg = np.array(arg)
